@@ -1,0 +1,33 @@
+//go:build !verif
+
+package gojq
+
+// Verification hooks (see verif_on.go) are compiled out without the verif
+// build tag: every switch is constantly off and the helpers are never called.
+
+const (
+	verifOptConstObject = iota
+	verifOptConstArray
+	verifOptConstUnary
+	verifOptIndexKey
+	verifOptAssignPath
+	verifOptInlineIdentity
+	verifOptInlineOneInstr
+	verifOptIfConst
+	verifOptExpRemove
+	verifOptTailRec
+	verifOptCodeOps
+	verifOptInPlace
+)
+
+func verifOff(int) bool { return false }
+
+func (c *compiler) verifNoInline(int) bool { return false }
+
+func (c *compiler) verifCompileUnary(*Unary) error { return nil }
+
+func (c *compiler) verifCompileIndex(*Term, *Index) error { return nil }
+
+type verifLexState struct{}
+
+func (l *lexer) verifPoint() {}
